@@ -63,6 +63,61 @@ def shared_writes_before(cx: Cx, p: Path, upto: Event = None) -> List[str]:
     return out
 
 
+def _exception_class(cx: Cx, name: str):
+    cs = [c for c in cx.prog.classes.values() if c.name == name]
+    return cs[0] if len(cs) == 1 else None
+
+
+def documented_base(cx: Cx, exc: str, documented) -> Optional[str]:
+    """The documented error a package exception class stands for: itself, or the first documented name among its bases
+    (`class OutOfBoundsError(IndexError)` is an index error)."""
+    if exc in documented:
+        return exc
+    ci = _exception_class(cx, exc)
+    if ci is None:
+        return None
+    for c in cx.prog.mro(ci):
+        if c.name in documented:
+            return c.name
+        for b in c.bases:
+            if isinstance(b, str) and b.split('.')[-1] in documented:
+                return b.split('.')[-1]
+    return None
+
+
+def check_error_ctor_pure(cx: Cx, ci, doc: str = None) -> bool:
+    """The constructor of a package error class only stores and formats its arguments: a call into the model (a helper that
+    inspects the identifiers, an overridable method of the world) can fail itself, and then the operation ends in THAT error
+    instead of the documented one."""
+    import ast
+    init = ci.methods.get('__init__')
+    if not init:
+        return True
+    done = getattr(cx, '_ctor_checked', None)
+    if done is None:
+        done = cx._ctor_checked = set()
+    if ci.qualname in done:
+        return True
+    done.add(ci.qualname)
+    bad = None
+    for n_ in ast.walk(init[0].node):
+        if isinstance(n_, ast.Call):
+            f_ = n_.func
+            is_super = isinstance(f_, ast.Attribute) and f_.attr == '__init__'
+            is_fmt = isinstance(f_, ast.Name) and f_.id in ('str', 'repr', 'format', 'super', 'type') or \
+                (isinstance(f_, ast.Attribute) and f_.attr in ('format', 'join'))
+            if not (is_super or is_fmt):
+                bad = n_
+    if bad is not None:
+        cx.violation('R-PURE', init[0].qualname, 'error-constructor-only-stores-and-formats',
+                     f"{init[0].qualname} calls {ast.unparse(bad.func)}(...): when that call fails (identifiers of another type, a world "
+                     f"whose method answers in another shape) the operation ends in that error instead of the documented "
+                     f"{doc or ci.name}", where=cx.where(init[0], bad.lineno))
+        return False
+    cx.ok('R-PURE', f"{ci.name}.__init__ only stores and formats its arguments", where=cx.where(init[0]), function=init[0].qualname)
+    return True
+
+
 def check_atomic(cx: Cx, fn_q: str, excs: List[str], rule='R-ATOMIC', unroll=1, must_have=True, axioms=None,
                  ignore_locs=()) -> Dict[str, int]:
     """On every CFG path of fn that ends in one of the tabled errors (raised directly or by a resolved callee), no
@@ -75,9 +130,14 @@ def check_atomic(cx: Cx, fn_q: str, excs: List[str], rule='R-ATOMIC', unroll=1, 
             continue
         last = p.last
         exc = last.data.get('exc')
-        if exc not in seen:
+        raised = exc
+        exc = documented_base(cx, exc, seen) if isinstance(exc, str) else None
+        if exc is None:
             continue
         seen[exc] += 1
+        rci = _exception_class(cx, raised)
+        if rci is not None:
+            check_error_ctor_pure(cx, rci, exc)
         writes = shared_writes_before(cx, p, last)
         for w in last.data.get('callee_writes', []):
             writes.append(f"(inside callee) {w.data.get('store')} on {w.data.get('loc')} at line {w.line}")
